@@ -75,13 +75,42 @@ def run(ck, ctx):
     lat, lon = I.input("lat", kind="float"), I.input("long", kind="float")
     res = I.run_method(obj, "__call__", [lat, lon], st=st)
 
+    VARIANTS = ("Simulation.NoCloud", "Simulation.MonoCloud", "Simulation.PressureMapCloud")
+
+    def select(v, variant):
+        """the alternative of the merged result that a cloud model of class `variant` selects: every variant makes
+        exactly its own isinstance test true and is not None, whatever spells the dispatch (ladder of isinstance
+        tests, match with class patterns, or-patterns)"""
+        from ..facets.poly import eval_formula
+        pr_ = Pred(I)
+        guard = 0
+        while v is not None and v.op == "Phi" and guard < 16:
+            guard += 1
+            f = pr_.formula(v.args[0])
+            env = {}
+            for key in pr_.atoms_of(f):
+                kind, a_, _b = pr_.atoms[key]
+                if a_ is None:
+                    continue
+                if a_.op == "IsInstance":
+                    ts = a_.args[1].args if a_.args[1].op == "Tuple" else (a_.args[1],)
+                    if all(t.op == "Class" for t in ts):
+                        env[key] = any(t.attr.qualname == variant for t in ts)
+                elif a_.op == "Compare" and a_.attr in ("Is", "IsNot") and \
+                        any(x.op == "Const" and x.attr is None for x in a_.args):
+                    env[key] = a_.attr == "IsNot"
+            if not env:
+                return v            # a decision inside the model, not the dispatch
+            t = eval_formula(f, env)
+            if t is None:
+                return None
+            v = v.args[1] if t else v.args[2]
+        return v
+
     def alternatives(v):
-        """[(class qualname or None, value)] of the merged result"""
-        out = []
-        while v.op == "Phi" and v.args[0].op == "IsInstance" and v.args[0].args[1].op == "Class":
-            out.append((v.args[0].args[1].attr.qualname, v.args[1]))
-            v = v.args[2]
-        out.append((None, v))
+        """[(class qualname or None, value)] of the merged result; None stands for the pressure-map model"""
+        out = [(k, select(v, k)) for k in VARIANTS[:2]]
+        out.append((None, select(v, VARIANTS[2])))
         return out
 
     def r092():
